@@ -77,9 +77,14 @@ def gen_case(rng, length=25, fault_p=0.15, cached_bias=False, setting_bias=False
     nops = rng.randint(1, length)
     w_next, w_seek, w_set = (50, 15, 30) if setting_bias else (55, 22, 18)
     boundary = 0
+    after_close = None
     while len(ops) < nops:
+        if after_close is not None:
+            after_close -= 1
+            if after_close < 0:
+                break
         k = rng.choices(["next", "seek", "set", "close", "drop", "topass"],
-                        [w_next, w_seek, w_set, 2.5, 1.5, 6])[0]
+                        [w_next, w_seek, w_set, 1.5, 1.0, 6])[0]
         if k == "next":
             ops.append(["next"])
             if n:
@@ -111,13 +116,16 @@ def gen_case(rng, length=25, fault_p=0.15, cached_bias=False, setting_bias=False
                 ops.append(["size", list(rng.choice(SIZES))])
         elif k in ("close", "drop"):
             ops.append([k])
+            if after_close is None:
+                after_close = rng.randint(0, 4)
     case["ops"] = ops
     return case
 
 
 def base_case(**kw):
     c = {"n": 2, "total": 5, "loops": 1, "cache": False, "size": [1, 1], "dur": 1, "args": "none",
-         "pad": ["E", 0, 0, 0, 0], "owns": True, "frame": 0, "stamp": False, "faults": {}, "ops": []}
+         "pad": ["E", 0, 0, 0, 0], "owns": True, "frame": 0, "stamp": False, "faults": {}, "ffaults": {},
+         "ops": []}
     c.update(kw)
     return c
 
@@ -255,11 +263,13 @@ def cfg_t(c):
 def case_t(c, r):
     faults = core.coq_list(sorted((int(k), v) for k, v in c.get("faults", {}).items()),
                            lambda kv: f"({kv[0]}%nat, {z(kv[1])})")
+    ffaults = core.coq_list(sorted((int(k), v) for k, v in c.get("ffaults", {}).items()),
+                            lambda kv: f"({z(kv[0])}, {z(kv[1])})")
     ctor = "None" if r["ctor"][0] == "ok" else f"(Some {err_t(r['ctor'][1:])})"
     obs = core.coq_list(r["ops"], lambda x: f"({out_t(x[0])}, {z(x[1])})")
     tells = core.coq_list(r["ops"], lambda x: z(x[2]))
     n = "None" if c["n"] is None else f"(Some {z(c['n'])})"
-    return (f"{{| t_n := {n}; t_total := {z(c.get('total', 5))}; t_faults := {faults}; "
+    return (f"{{| t_n := {n}; t_total := {z(c.get('total', 5))}; t_faults := {faults}; t_ffaults := {ffaults}; "
             f"t_stamp := {'true' if c.get('stamp') else 'false'}; t_cfg := {cfg_t(c)}; "
             f"t_ops := {core.coq_list(c['ops'], op_t)}; t_ctor := {ctor}; t_obs := {obs}; t_tells := {tells}; "
             f"t_log := {core.coq_list(r['log'], rcall_t)}; t_fin := {r['fin']}%nat; "
@@ -285,21 +295,39 @@ def evaluate(cases, tag="c08", bad="bad8"):
 
 
 def shrink(case, fails, tag):
-    """Greedy: drop operations, then reset configuration fields to their defaults, while
-    `fails(list of cases) -> list of bool` (the property oracle on the implementation)
-    still says the case fails."""
+    """Greedy, batched: candidates smallest first (single operations, prefixes, the
+    all-default configuration, single removals, single configuration resets); the first
+    candidate on which `fails(list of cases, tag) -> list of bool` (the property oracle on
+    the implementation) still holds replaces the case."""
     cur = case
-    for _ in range(60):
+    dflt = base_case()
+    cfg_fields = ("faults", "ffaults", "stamp", "frame", "owns", "args", "dur", "size", "cache", "loops", "pad", "n", "total")
+    for _ in range(40):
         cands = []
-        for k in range(len(cur["ops"])):
+        nops = len(cur["ops"])
+        if nops > 1:
+            for k in range(nops):
+                c = copy.deepcopy(cur)
+                c["ops"] = [cur["ops"][k]]
+                cands.append(c)
+            for k in range(1, nops):
+                c = copy.deepcopy(cur)
+                c["ops"] = cur["ops"][:k]
+                cands.append(c)
+        if any(cur.get(f) != dflt[f] for f in cfg_fields):
             c = copy.deepcopy(cur)
-            del c["ops"][k]
+            for f in cfg_fields:
+                c[f] = copy.deepcopy(dflt[f])
             cands.append(c)
-        dflt = base_case()
-        for f in ("faults", "stamp", "frame", "owns", "args", "dur", "size", "cache", "loops", "pad", "n", "total"):
+        if nops > 1:
+            for k in range(nops):
+                c = copy.deepcopy(cur)
+                del c["ops"][k]
+                cands.append(c)
+        for f in cfg_fields:
             if cur.get(f) != dflt[f]:
                 c = copy.deepcopy(cur)
-                c[f] = dflt[f]
+                c[f] = copy.deepcopy(dflt[f])
                 cands.append(c)
         for k, o in enumerate(cur["ops"]):
             if o[0] == "pad" and o[1] != ["A", 0, 0, 1, 1] and pad_kind(o[1]) == "aligned-relative":
@@ -324,12 +352,13 @@ def describe(c):
     n = "INDEFINITE" if c["n"] is None else c["n"]
     return (f"frames={n} loops={c['loops']} cache={c['cache']} size={c['size']} dur={c['dur']} args={c['args']} "
             f"pad={c['pad']} owns={c.get('owns', True)} tell={c.get('frame', 0)} faults={c.get('faults', {})} "
+            f"frame_faults={c.get('ffaults', {})} "
             f"ops=[{', '.join(map(one, c['ops']))}]")
 
 
 def signature(c):
     return core.sig({k: c.get(k) for k in ("n", "loops", "cache", "size", "dur", "args", "pad", "owns", "frame",
-                                           "faults", "ops")})
+                                           "faults", "ffaults", "ops")})
 
 
 def histogram(cases, impl):
@@ -424,6 +453,62 @@ def fails_spec8(cands, tag="c08s"):
     return [code >= 2 and not errors for code in codes]
 
 
+def canon_op(o):
+    if o[0] == "pad" and pad_kind(o[1]) == "aligned-relative":
+        return ["pad", ["A", 0, 0, 1, 1]]
+    return copy.deepcopy(o)
+
+
+def minimise_all(failing, fails, tag, full_budget=2):
+    """failing: list of cases on which the oracle fails.  Returns one minimal case per
+    input: first a batched attempt (a single operation of the history on the default
+    configuration), then the full greedy shrink for at most `full_budget` of the rest."""
+    singles, owner = {}, []
+    for c in failing:
+        mine = []
+        for o in c["ops"]:
+            m = base_case(ops=[canon_op(o)])
+            singles.setdefault(signature(m), m)
+            mine.append(signature(m))
+        owner.append(mine)
+    keys = list(singles)
+    verdict = dict(zip(keys, fails([singles[k] for k in keys], tag))) if keys else {}
+    out = []
+    for c, mine in zip(failing, owner):
+        hit = next((k for k in mine if verdict.get(k)), None)
+        if hit is not None:
+            out.append(singles[hit])
+        elif full_budget > 0:
+            full_budget -= 1
+            out.append(shrink(c, fails, tag))
+        else:
+            out.append(c)
+    return out
+
+
+def report_failures(cases, codes, fails, tag, what, evaluate_fn):
+    failing = [cases[i] for i, code in enumerate(codes) if code >= 2]
+    if not failing:
+        return []
+    minimal = minimise_all(failing, fails, tag)
+    uniq = {}
+    for m in minimal:
+        uniq.setdefault(signature(m), m)
+    keys = list(uniq)
+    c2, _, impl2 = evaluate_fn([uniq[k] for k in keys], tag + "r")
+    failures = []
+    for k, code, obs in zip(keys, c2, impl2):
+        m = uniq[k]
+        failures.append({
+            "signature": k,
+            "what": what + ": " + describe(m) + " -> observed "
+                    + json.dumps([x[0] for x in obs.get("ops", [])])[:600]
+                    + f" [{sum(1 for x in minimal if signature(x) == k)} failing case(s) of this run reduce to it]",
+            "replay": {"case": m, "observed": obs, "code": code},
+        })
+    return failures
+
+
 def run(ctx):
     rng = ctx.rng
     if ctx.replay:
@@ -435,19 +520,9 @@ def run(ctx):
         if not ctx.quick:
             cases += exhaustive_small(4)
     codes, errors, impl = evaluate(cases)
-    mismatches, failures = [], []
-    for i, code in enumerate(codes):
-        if code >= 2:
-            small = shrink(cases[i], fails_spec8, "c08s") if len(failures) < 4 else cases[i]
-            c2, _, impl2 = evaluate([small], tag="c08r")
-            failures.append({
-                "signature": signature(small),
-                "what": "iterator history contradicts the documented model (IterSpec): " + describe(small)
-                        + " -> observed " + json.dumps([x[0] for x in impl2[0].get("ops", [])])[:600],
-                "replay": {"case": small, "observed": impl2[0], "code": c2[0]},
-            })
-        elif code == 1:
-            mismatches.append({"case": cases[i], "code": code, "observed": impl[i]})
+    failures = report_failures(cases, codes, fails_spec8, "c08s",
+                               "iterator history contradicts the documented model (IterSpec)", evaluate)
+    mismatches = [{"case": cases[i], "code": code, "observed": impl[i]} for i, code in enumerate(codes) if code == 1]
     distinct = {signature(c) for c, r in zip(cases, impl) if nontrivial(c, r)}
     return {
         "corr_name": "Iter.trace (model) == IterSpec.spec_trace (documented machine) == real RenderIterator history "
